@@ -3000,6 +3000,7 @@ func doCompositeBinStruct(n *node, hasType bool) {
 
 	frameIndex := n.findex
 	l := n.level
+	destInterface := isInterface(destType(n))
 
 	n.exec = func(f *frame) bltn {
 		s := reflect.New(typ).Elem()
@@ -3013,6 +3014,11 @@ func doCompositeBinStruct(n *node, hasType bool) {
 		case n.anc.kind == assignStmt:
 			// Write to the existing variable, which may be referenced by a pointer or a closure.
 			d.Set(s)
+		case destInterface:
+			// A new variable of interface type: it holds the struct, and keeps its own type.
+			v := reflect.New(d.Type()).Elem()
+			v.Set(s)
+			getFrame(f, l).data[frameIndex] = v
 		default:
 			getFrame(f, l).data[frameIndex] = s
 		}
